@@ -18,7 +18,8 @@ def copy(arr):
     if config.BACKEND == "numpy":
         if isinstance(arr, np.ndarray):
             return np.array(arr)
-        elif isinstance(arr, (int, float)):
+        elif isinstance(arr, (int, float, np.generic)):
+            # numpy scalars other than float64 (e.g. with dtype float32) are not Python floats.
             return deepcopy(arr)
     else:
         return torch.clone(arr)
